@@ -18,6 +18,8 @@ epsilon - every real `sleep` overshoots).
 """
 from __future__ import annotations
 
+import asyncio
+
 from mitmproxy import tcp as mtcp
 from mitmproxy.connection import ConnectionState
 from mitmproxy.connection import Server
@@ -50,6 +52,7 @@ TICK = 1e-6
 MAX_PENDING = 3
 MAX_STARTS = 4
 MAX_OPENS = 2
+MAX_ABNORMAL = 1
 # (client_connected hook held, eager task factory effective as in production)
 VARIANTS_QUICK = [(False, True), (True, True)]
 VARIANTS_THOROUGH = [(False, True), (True, True), (False, False)]
@@ -78,12 +81,19 @@ class ScriptLayer(layer.Layer):
                     yield cmd
                 elif c == "c":
                     # the layer is done with its first open upstream connection ("closed by command")
-                    for s in getattr(self, "conns", []):
-                        if s.state is ConnectionState.OPEN:
-                            yield commands.CloseConnection(s)
-                            break
+                    s = _closable(self)
+                    if s is not None:
+                        yield commands.CloseConnection(s)
         elif isinstance(ev, events.ConnectionClosed) and ev.connection is self.context.client:
             yield commands.CloseConnection(ev.connection)
+
+
+def _closable(lay):
+    """the first upstream connection the layer still uses (established, its connection task alive)"""
+    for s in getattr(lay, "conns", []):
+        if s.state is ConnectionState.OPEN and not getattr(s, "_dead", False):
+            return s
+    return None
 
 
 def _policy(name, data, world):
@@ -113,6 +123,10 @@ class Sys:
         self.judged_close = False
         self.livelock = False
         self.pass_next = False
+        self.hook_tasks = {}
+        self.abandoned = []
+        self.last_abnormal = None
+        self.abnormal = 0 # hooks that ended by an addon exception or by cancellation of the task handling them
 
     def _build(self):
         self.w = EWorld(mode="reverse:tcp://10.0.0.1:80", layer_factory=lambda ctx: ScriptLayer(ctx),
@@ -132,6 +146,16 @@ class Sys:
                 raise
 
         wd.callback = cb
+        # observation only: which task is handling the hook for which hook argument (to cancel it like
+        # close_connection / the client teardown cancel an open_connection task that awaits an async addon hook)
+        orig_hh = w.handler.handle_hook
+
+        async def hh(hook):
+            (data,) = hook.args()
+            self.hook_tasks[id(data)] = asyncio.current_task()
+            await orig_hh(hook)
+
+        w.handler.handle_hook = hh
 
     def _suspend(self, name, data, world):
         if name == "tcp_message":
@@ -162,7 +186,7 @@ class Sys:
     def _adopt_flow(self):
         if self.livelock:
             return
-        known = [p[3] for p in self.pending]
+        known = [p[3] for p in self.pending] + self.abandoned
         new = [d for n, d in self.w.hook_objs if n == "tcp_message" and d.metadata.get("icpt") and d.intercepted and not any(d is k for k in known)]
         if len(new) != 1:
             raise HarnessError("expected one newly intercepted flow, got %d after %r" % (len(new), self.hist))
@@ -219,10 +243,16 @@ class Sys:
                 acts.append(["conn_ok_pass"])
             # the layer closes an established upstream connection: server_disconnected is then called directly and held
             # (not while a server_connected hook is pending: cancelling that is C09's subject)
-            if room and any(e.state == "open" and not e.w.closed for e in w.servers) and not any(p[0] == "direct" for p in self.pending):
+            if room and _closable(w.handler.layer) is not None and not any(p[0] == "direct" for p in self.pending):
                 acts.append(["close_srv"])
         for j in range(len(self.pending)):
             acts.append(["fin", j])
+        if self.abnormal < MAX_ABNORMAL:
+            for j, p in enumerate(self.pending):
+                if p[0] != "icpt":
+                    acts.append(["fin_exc", j])  # the async addon hook raises
+                if p[0] != "client_connected":
+                    acts.append(["cancel", j])  # the task awaiting the hook / wait_for_resume is cancelled
         if w.loop.next_timer() is not None:
             acts.append(["adv", "exact"])
             acts.append(["adv", "eps"])
@@ -307,6 +337,29 @@ class Sys:
                 if not self.pending:
                     self.last_done = self.now
                 self._run()
+            elif kind in ("fin_exc", "cancel"):
+                if kind == "cancel":
+                    # (an addon exception is swallowed by the addon manager: for the handler the hook just returns, the
+                    # state merges with the one after a normal completion)
+                    self.abnormal += 1
+                    self.last_abnormal = kind
+                p = self.pending.pop(a[1])
+                data = p[3] if p[0] == "icpt" else p[3][1]
+                if kind == "fin_exc":
+                    fut = p[3][2]
+                    call(lambda: (not fut.done()) and fut.set_exception(RuntimeError("addon hook failed")))
+                else:
+                    task = self.hook_tasks.get(id(data))
+                    if task is None:
+                        raise HarnessError("no task recorded for pending hook %r" % (p[0],))
+                    if p[0] == "direct":
+                        data.server._dead = True  # its open_connection task is gone; the layer will not use it any more
+                    if p[0] == "icpt":
+                        self.abandoned.append(data)  # still marked intercepted, but nobody waits for it any more
+                    call(task.cancel)
+                if not self.pending:
+                    self.last_done = self.now
+                self._run()
             else:
                 raise HarnessError("unknown action %r" % (a,))
         self._observe_close(before)
@@ -347,7 +400,7 @@ class Sys:
         if self.closed_at is None:
             idle = self.now - self.last_any
             must = (not self.pending) and idle > TIMEOUT
-            t.judge("eventually_closed", not must, {"client_connected_held": self.cc, "eager": self.eager, "callback_raised": self.callback_raised, "watchdog_called": bool(self.callbacks)}, case,
+            t.judge("eventually_closed", not must, {"client_connected_held": self.cc, "eager": self.eager, "callback_raised": self.callback_raised, "watchdog_called": bool(self.callbacks), "hook_ended_abnormally": self.last_abnormal}, case,
                     "closed: nothing pending and %.6f s > %d s without any event" % (idle, TIMEOUT),
                     {"timer": self.w.loop.next_timer(), "callbacks": [round(c - self.t0, 6) for c in self.callbacks]})
 
@@ -373,7 +426,8 @@ class Sys:
             "pending": [[p[0], min(p[2], 2)] for p in self.pending],
             "ref": [age(self.last_act), age(self.last_any), age(self.last_done)],
             "closed": self.closed_at is not None, "connects": len(w.pending_connects()), "opens": self.opens, "starts": self.starts,
-            "callbacks": len(self.callbacks), "raised": self.callback_raised, "livelock": self.livelock,
+            "callbacks": len(self.callbacks), "raised": self.callback_raised, "livelock": self.livelock, "abnormal": [self.abnormal, self.last_abnormal],
+            "usable": [s.state.name + ("-dead" if getattr(s, "_dead", False) else "") for s in getattr(w.handler.layer, "conns", [])],
             "servers": [e.state + ("-closed" if e.w.closed else "") for e in w.servers],
         }
 
@@ -430,7 +484,7 @@ def run(ctx):
     VARIANTS = ctx.pick(VARIANTS_QUICK, VARIANTS_THOROUGH)
     ctx.bounds = {
         "timeout_s": TIMEOUT, "epsilon_s": EPS, "depth": "%d actions after the variant choice" % depth,
-        "actions": ["act", "ev_hook", "ev_icpt", "open", "conn_ok (server_connected held)", "conn_ok_pass", "close_srv (server_disconnected held)", "fin j", "adv exact", "adv eps", "adv 1"],
+        "actions": ["act", "ev_hook", "ev_icpt", "open", "conn_ok (server_connected held)", "conn_ok_pass", "close_srv (server_disconnected held)", "fin j", "fin_exc j (addon hook raises)", "cancel j (task handling the hook is cancelled; <= 1)", "adv exact", "adv eps", "adv 1"],
         "max_pending_hooks": MAX_PENDING, "max_hook_starts": MAX_STARTS, "max_opens": MAX_OPENS,
         "variants (client_connected held, eager task start)": [list(v) for v in VARIANTS],
     }
